@@ -325,6 +325,29 @@ def part_e(rep, hbin, tier, seed, cov):
         "semantic_outcomes": json.loads(m.group(8)) if m else {},
         "values_not_reparsing(sample)": re.findall(r"POLTEXTNOREPARSE (.*)", p.stderr)[:8]}
     cov.setdefault("samples", []).extend(re.findall(r"POLTEXTSAMPLE (.*)", p.stderr)[:4])
+    # VALUES built with the enum constructors whose printed form does not parse back to an equal value, classified by
+    # the harness from the value's structure.  (The Coq comparison below requires every value that satisfies the
+    # parser's own checks to re-parse equal, so an unclassified one also breaks poltext_cases_match_model.)
+    vals = {}
+    for ty, reason, n, wit in re.findall(r"^POLTEXTVALUE (\S+) (\S+) n=(\d+) witness=(.*)$", p.stderr, flags=re.M):
+        vals["%s %s" % (ty, reason)] = {"count": int(n), "witness_printed_form": wit}
+        key = None
+        if (ty, reason) == ("semantic", "semantic-1of1"):
+            key = "rt:policy:semantic-1of1"
+        elif (ty, reason) == ("concrete", "concrete-nary"):
+            key = "rt:policy:concrete-nary"
+        elif reason == "unexplained":
+            key = "poltext-value-rt"
+        if key:
+            rep.violation(key, "%s policy value built with the public enum constructors prints as %r, which %s::from_tree refuses "
+                               "or parses to a different value (%s values this run)" % (ty, wit, ty.capitalize(), n),
+                          {"property": PID, "part": "policy-round-trip", "key": key, "poltext_value": {"type": ty, "reason": reason},
+                           "printed_form": wit, "seed": seed, "tier": tier}, True)
+    cov["policy_text_layer"]["values_whose_printed_form_does_not_reparse[type reasons]"] = vals
+    cov["policy_text_layer"]["value_classes"] = (
+        "semantic-1of1 / concrete-nary: findings (known_findings.txt); empty-and-or, zero-odds, odds-over-u32: values outside the "
+        "text syntax by construction (no text form exists / the parser refuses 0@ on purpose / odds are parsed as u32); "
+        "structural-key: a String key containing ( ) , { } #")
     obligations, discharged = 2, 0
     # statements file of the policy text layer (the coordinator registers it on merge)
     t2, b2, pr2, _ = vlib.check_property_file("C10PolText")
@@ -363,7 +386,7 @@ def part_e(rep, hbin, tier, seed, cov):
         tmp = os.path.join(vlib.WORK, "c10-poltext-replay.txt")
         open(tmp, "w").write("".join(t + "\n" for t in cand if "\n" not in t))
         q = vlib.sh([hbin, "poltext", "rtfile", tmp], timeout=600)
-        for ty, verdict, line in re.findall(r"^POLRT (\S+) (FAIL .*?|OK|REJECTED) (.*)$", q.stdout, flags=re.M):
+        for ty, verdict, line in re.findall(r"^POLRT\t(\S+)\t(FAIL[^\t]*|OK|REJECTED)\t(.*)$", q.stdout, flags=re.M):
             if verdict.startswith("FAIL"):
                 fail = (ty, verdict, line)
                 break
@@ -480,13 +503,24 @@ def _replay_poltext(rep, hbin, replay):
         obj = json.load(open(replay))
     except Exception:
         return False
+    if "poltext_value" in obj:
+        pv = obj["poltext_value"]
+        q = vlib.sh([hbin, "poltext", str(obj.get("seed", 1)), obj.get("tier", "quick")], timeout=3000)
+        m = re.search(r"^POLTEXTVALUE %s %s n=(\d+) witness=(.*)$" % (re.escape(pv["type"]), re.escape(pv["reason"])), q.stderr, flags=re.M)
+        if m:
+            rep.violation(obj.get("key", "poltext-value-rt"),
+                          "%s policy value prints as %r, which does not parse back to an equal value" % (pv["type"], m.group(2)), dict(obj), True)
+        rep.coverage.update({"obligations": 1, "discharged": 1, "evaluations": 1, "distinct_nontrivial": 1,
+                             "rule": "replay of one recorded value class", "samples": [obj.get("printed_form", "")[:200]],
+                             "checker_cmd": "verif-harness poltext <seed> <tier>", "trusted_base": vlib.TRUSTED_BASE_COMMON})
+        return True
     if "poltext_line" not in obj:
         return False
     os.makedirs(vlib.WORK, exist_ok=True)
     tmp = os.path.join(vlib.WORK, "c10-poltext-replay.txt")
     open(tmp, "w").write(obj["poltext_line"] + "\n")
     q = vlib.sh([hbin, "poltext", "rtfile", tmp], timeout=600)
-    for ty, verdict, line in re.findall(r"^POLRT (\S+) (FAIL .*?|OK|REJECTED) (.*)$", q.stdout, flags=re.M):
+    for ty, verdict, line in re.findall(r"^POLRT\t(\S+)\t(FAIL[^\t]*|OK|REJECTED)\t(.*)$", q.stdout, flags=re.M):
         if verdict.startswith("FAIL"):
             rep.violation("poltext-rt", "policy text round trip fails on the real code (%s policy): %r: %s" % (ty, line[:300], verdict[:300]),
                           dict(obj), True)
